@@ -80,6 +80,8 @@ def tables(rep):
             try:
                 back = DiameterAVP.load(hdr)
                 to = type(back[0]).__name__ if len(back) == 1 else f"{len(back)} AVPs"
+                if len(back) == 1 and back[0].data not in (b"", None) and back[0].dump() != hdr:
+                    to += f" carrying {back[0].data!r} that is not on the wire"
             except BaseException as ex:
                 to = d.name if not empty_ok else f"raised {type(ex).__name__}"
             dispatch.append({"name": d.name, "to": to, "want": d.name, "empty": True})
